@@ -76,7 +76,8 @@ def is_elastic(key):
 def make_tube(case):
     from srlife import receiver
     nr, nt, nz = case["mesh"]
-    tube = receiver.Tube(case["r"], case["t"], case["h"], nr, nt, nz)
+    # the tube multiplier is bookkeeping of other stages: force and stiffness of the modelled tube must ignore it
+    tube = receiver.Tube(case["r"], case["t"], case["h"], nr, nt, nz, multiplier=case.get("multiplier", 1))
     ndim = case["ndim"]
     if ndim == 1:
         tube.make_1D(tube.h / 2, 0.0)
@@ -118,7 +119,8 @@ def gen_case(rng, ndim, mat, nsteps, mesh=None, load=None):
     p = [0.0] + [load * rng.uniform(0.0, 10.0) for _ in range(nsteps)]
     a = float(material(mat).alpha(Tb))
     d = [h * (a * (float(np.mean(T[k + 1])) - float(np.mean(T[0]))) + load * rng.uniform(-6e-4, 6e-4)) for k in range(nsteps)]
-    return dict(ndim=ndim, mat=mat, mesh=mesh, r=r, t=t, h=h, times=times, p=p, T=T.tolist(), d=d, solver=dict(FD_SOLVER), load=load)
+    return dict(ndim=ndim, mat=mat, mesh=mesh, r=r, t=t, h=h, times=times, p=p, T=T.tolist(), d=d, solver=dict(FD_SOLVER), load=load,
+                multiplier=(rng.choice([3, 7]) if ndim == 3 else rng.choice([1, 1, 3, 7])))
 
 
 def gen_quiet_case(rng, ndim, kind):
